@@ -168,6 +168,9 @@ impl<'a> Sim<'a> {
             self.world.borrow_mut().current = Some(h);
 
             World::enter(&self.world, || {
+                if rt.is_software_running() {
+                    World::current(|world| world.current_host_mut().tcp.fail_peer_writers());
+                }
                 rt.crash();
 
                 // Walk the per-subsystem crash hooks in lock order.
@@ -194,6 +197,7 @@ impl<'a> Sim<'a> {
     /// Bounces the resolved hosts. The software is restarted.
     pub fn bounce(&mut self, addrs: impl ToIpAddrs) {
         self.run_with_hosts(addrs, |addr, rt| {
+            World::current(|world| world.current_host_mut().tcp.fail_peer_writers());
             rt.bounce();
 
             tracing::trace!(target: TRACING_TARGET, addr = ?addr, "Bounce");
